@@ -92,18 +92,19 @@ func (u *Unmarshaler) fillMap(fieldType reflect.Type, value reflect.Value,
 		return errValueNotSettable
 	}
 
-	fieldKeyType := fieldType.Key()
-	fieldElemType := fieldType.Elem()
+	derefedType := Deref(fieldType)
+	fieldKeyType := derefedType.Key()
+	fieldElemType := derefedType.Elem()
 	targetValue, err := u.generateMap(fieldKeyType, fieldElemType, mapValue, fullName)
 	if err != nil {
 		return err
 	}
 
-	if !targetValue.Type().AssignableTo(value.Type()) {
+	if !targetValue.Type().AssignableTo(derefedType) {
 		return errTypeMismatch
 	}
 
-	value.Set(targetValue)
+	SetValue(fieldType, value, targetValue)
 	return nil
 }
 
@@ -380,12 +381,13 @@ func (u *Unmarshaler) generateMap(keyType, elemType reflect.Type, mapValue any,
 				return emptyValue, errTypeMismatch
 			}
 
-			innerValue, err := u.generateMap(elemType.Key(), elemType.Elem(), keythMap, mapFullName)
+			innerValue, err := u.generateMap(dereffedElemType.Key(), dereffedElemType.Elem(),
+				keythMap, mapFullName)
 			if err != nil {
 				return emptyValue, err
 			}
 
-			targetValue.SetMapIndex(key, innerValue)
+			SetMapIndexValue(elemType, targetValue, key, innerValue)
 		default:
 			switch v := keythData.(type) {
 			case bool:
